@@ -7,6 +7,13 @@ rows = []
 for d in sorted((V / "seeded").iterdir()):
     m = json.loads((d / "meta.json").read_text())
     det = json.loads((d / "detection.json").read_text()) if (d / "detection.json").exists() else None
+    # runs of a second engine / under another property (detection-gen4.json, detection-C12.json, ...)
+    extra = []
+    for alt in sorted(d.glob("detection-*.json")):
+        a = json.loads(alt.read_text())
+        if a.get("detected"):
+            extra.append("by `%s` (%s tier, %ds)" % (alt.stem.replace("detection-", "").replace("gen", "engine/gen") ,
+                                                           a["tier"], a["wall_s"]))
     if det is None:
         res = "not run"
     elif det["detected"]:
@@ -20,6 +27,8 @@ for d in sorted((V / "seeded").iterdir()):
         res = "inconclusive (%s tier): %s" % (det["tier"], "; ".join(det["inconclusive"])[:160])
     else:
         res = "**missed** (%s tier, harnesses %s)" % (det["tier"], det["only"])
+    if extra:
+        res = ("**caught** " if not (det and det["detected"]) else res + "; also ") + "; ".join(extra)
     note = m.get("detection_note", "")
     rows.append("| %s | %s | %s | %s%s |" % (m["id"], m["change"].replace("|", "\\|"),
                                             m["needs_to_manifest"].replace("|", "\\|"), res,
